@@ -284,8 +284,8 @@ def check(run, pid):
             configs = [("sync", dict(S, **base, MaxOps="3", MaxId="3", Keys=K1), False, None, 40, 300, None),
                        ("async", dict(A, **base, MaxOps="3", MaxId="3", Keys=K1), True, None, 40, 300, None),
                        ("sync2", dict(S, **base), False, None, 40, 100, None),
-                       ("sim-sync", dict(S, **base, MaxOps="6", MaxId="5", AnyOrder="TRUE"), False, (300, 60), 70, 0, None),
-                       ("sim-async", dict(A, **base, MaxOps="6", MaxId="5", AnyOrder="TRUE"), True, (300, 60), 70, 0, None)]
+                       ("sim-sync", dict(S, **base, MaxOps="6", MaxId="5", AnyOrder="TRUE"), False, (100, 60), 70, 0, None),
+                       ("sim-async", dict(A, **base, MaxOps="6", MaxId="5", AnyOrder="TRUE"), True, (100, 60), 70, 0, None)]
         else:
             configs = [("sync", dict(S, **base), False, None, 40, 10, None),
                        ("sync3", dict(S, **base, MaxOps="3", MaxId="3", Keys=K1), False, None, 40, 0, 600),
@@ -295,8 +295,8 @@ def check(run, pid):
         if thorough:
             configs = [("sync", S, False, None, 40, 300, None),
                        ("async", A, True, None, 40, 300, None),
-                       ("sim-sync", dict(S, MaxOps="5", MaxId="4", MaxRestarts="2", AnyOrder="TRUE"), False, (400, 60), 70, 0, None),
-                       ("sim-async", dict(A, MaxOps="5", MaxId="4", MaxRestarts="2", AnyOrder="TRUE"), True, (400, 60), 70, 0, None)]
+                       ("sim-sync", dict(S, MaxOps="5", MaxId="4", MaxRestarts="2", AnyOrder="TRUE"), False, (100, 60), 70, 0, None),
+                       ("sim-async", dict(A, MaxOps="5", MaxId="4", MaxRestarts="2", AnyOrder="TRUE"), True, (100, 60), 70, 0, None)]
         else:
             configs = [("sync", dict(S, Keys=K1), False, None, 40, 0, 900),
                        ("async", dict(A, Keys=K1), True, None, 40, 0, 500),
